@@ -704,15 +704,17 @@ SSVectorBase<R>& SSVectorBase<R>::assign2productShort(const SVSetBase<S>& A,
          for(int j = 0; j < Aisize; ++j)
          {
             const Nonzero<S>& elt = Ai.element(j);
-            idx[nonzero_idx] = elt.idx;
             R oldval  = VectorBase<R>::val[elt.idx];
 
             // An old value of exactly 0 means the position is still unused.
             // It will be used now (either by a new nonzero or by a SOPLEX_VECTOR_MARKER),
-            // so increase the counter. If oldval != 0, we just
+            // so store its index and increase the counter. If oldval != 0, we just
             // change an existing NZ-element, so don't increase the counter.
             if(oldval == 0)
+            {
+               idx[nonzero_idx] = elt.idx;
                ++nonzero_idx;
+            }
 
             // Add the current product x[i] * A[i][j]; if oldval was
             // SOPLEX_VECTOR_MARKER before, it does not hurt because SOPLEX_VECTOR_MARKER is really small.
